@@ -48,7 +48,7 @@ func (c19) Cases(tier string) int {
 func (c19) Describe() core.Info {
 	return core.Info{
 		Level: "exploration",
-		Rule: "fact sets of 0-60 facts over 1-8 predicates (zero-arity, same symbol with two arities, predicates listed without facts), all constant kinds (names over the full lexer character set incl. '%', strings with every escape class and control characters, bytes, boundary numbers, integral/huge/tiny floats, times, durations incl. extremes, nested values; every 150th fact set holds a value that prints to more than 64 KiB) x {plain,gzip,zstd} x {deterministic,not} x {ReadInto each store kind, lazy SimpleColumnStore}; lazy view queried with a pattern per stored fact for every subset of <= 3 constant columns plus non-matching constants; deterministic writes from two differently ordered sources must be byte-identical; the lazy view is written again (deterministic and not), must reload to the same facts, give the same deterministic bytes and still answer afterwards. Oracle: canonical-set equality. Non-trivial: >= 2 predicates of different arity and a constant needing escaping or a structured value; distinct by canonical fact set + configuration.",
+		Rule: "fact sets of 0-60 facts over 1-8 predicates (zero-arity, same symbol with two arities, predicates listed without facts), all constant kinds (names over the full lexer character set incl. '%', strings with every escape class and control characters, bytes, boundary numbers, integral/huge/tiny floats, times, durations incl. extremes, nested values; every 150th fact set holds a value that prints to more than 64 KiB) x {plain,gzip,zstd} x {deterministic,not} x {ReadInto each store kind, lazy SimpleColumnStore}; lazy view queried with a pattern per stored fact for every subset of <= 3 constant columns plus non-matching constants; deterministic writes from two differently ordered sources must be byte-identical; the lazy view is written again (deterministic and not), must reload to the same facts, give the same deterministic bytes and still answer afterwards. Oracle: canonical-set equality. Non-trivial: >= 2 predicates of different arity and a constant needing escaping or a structured value; distinct by canonical fact set + configuration. A fifth of the array-backed fact sets hold a value from the ends of the ranges (first and last representable instant, the last instant of 1677, extreme durations, integers and floats), bare or in a list.",
 		Assumptions: []string{"ReadInto target defaults to the array store (hash conflation of other stores is C06's finding)", "lines stay below bufio.Scanner's 64KiB token limit"},
 	}
 }
